@@ -143,7 +143,7 @@ func c13Menu(size string) []c13Cmd {
 	case "mini":
 		// quick depth-3 menu: one command per commit-time mechanism (create-only row, channel delete vs subscriber rows,
 		// subscriber mutation version, monotonic runtime meta + conflict, guarded retention advance, task create + guarded advance)
-		return pick("user-upsert:u1:a", "user-create:u1:b", "chan-del:c1", "sub-add:c1:u1,u2:v2", "sub-rm:c1:u1:v1",
+		return pick("chan-del:c1", "sub-add:c1:u1,u2:v2", "sub-rm:c1:u1:v1",
 			"rtm-upsert:c1:e1l1L1", "rtm-upsert:c1:e1l1L2", "ret-adv:c1:e1l1L1:seq5", "mig-create:T1", "mig-fail:T1",
 			"bad-type:0xff", "notowned-envelope:user-upsert", "bad-semantic:rtm-minisr")
 	case "small":
@@ -262,9 +262,99 @@ func c13ExtraEncodings() []c13Cmd {
 // ---------------------------------------------------------------- one replica (DB + state machine)
 
 type c13Node struct {
-	dir string
-	db  *metadb.DB
-	sm  multiraft.StateMachine
+	dir      string
+	db       *metadb.DB
+	sm       multiraft.StateMachine
+	poisoned bool // a panic escaped from the code under test: locks may be held, never reuse
+}
+
+// Replicas are pooled: a released replica is wiped through the metadb API (DeleteHashSlotData of every hash slot
+// the harness addresses + the slot's applied index) and handed out again only if a new state machine on it
+// reports exactly the state of a freshly created DB (empty export, applied index 0); otherwise it is discarded
+// and a new DB is created. This keeps Pebble opens (about 10 ms each) for the restarts, where they are the point.
+var (
+	c13PoolMu     sync.Mutex
+	c13PoolFree   []*c13Node
+	c13EmptyOnce  sync.Once
+	c13EmptyState []byte
+	c13PoolReuse  atomic.Int64
+	c13PoolReject atomic.Int64
+)
+
+func c13Acquire() *c13Node {
+	c13EmptyOnce.Do(func() {
+		n, err := c13Open(c13FreshDir())
+		if err != nil {
+			panic(fmt.Sprintf("c13 harness: open: %v", err))
+		}
+		s, a := n.state()
+		if a != 0 {
+			panic("c13 harness: fresh DB has a non-zero applied index")
+		}
+		c13EmptyState = s
+		n.destroy()
+	})
+	for {
+		var n *c13Node
+		c13PoolMu.Lock()
+		if k := len(c13PoolFree); k > 0 {
+			n, c13PoolFree = c13PoolFree[k-1], c13PoolFree[:k-1]
+		}
+		c13PoolMu.Unlock()
+		if n == nil {
+			n, err := c13Open(c13FreshDir())
+			if err != nil {
+				panic(fmt.Sprintf("c13 harness: open: %v", err))
+			}
+			return n
+		}
+		sm, err := fsm.NewStateMachineWithHashSlots(n.db, c13Slot, []uint16{c13HS, c13HS2})
+		if err != nil {
+			n.destroy()
+			continue
+		}
+		n.sm = sm
+		if s, a := n.state(); a == 0 && bytes.Equal(s, c13EmptyState) {
+			c13PoolReuse.Add(1)
+			return n
+		}
+		c13PoolReject.Add(1)
+		n.destroy()
+	}
+}
+
+// release wipes the replica and returns it to the pool.
+func (n *c13Node) release() {
+	if n.poisoned || n.db == nil {
+		n.destroy()
+		return
+	}
+	for _, hs := range []uint16{c13HS, c13HS2, c13Foreign} {
+		if err := n.db.DeleteHashSlotData(c13Ctx, hs); err != nil {
+			n.destroy()
+			return
+		}
+	}
+	for _, slot := range []uint64{c13Slot, c13Slot + 1} { // also removes the slot's applied-index key
+		if err := n.db.DeleteSlotData(c13Ctx, slot); err != nil {
+			n.destroy()
+			return
+		}
+	}
+	n.sm = nil
+	c13PoolMu.Lock()
+	c13PoolFree = append(c13PoolFree, n)
+	c13PoolMu.Unlock()
+}
+
+func c13DrainPool() {
+	c13PoolMu.Lock()
+	free := c13PoolFree
+	c13PoolFree = nil
+	c13PoolMu.Unlock()
+	for _, n := range free {
+		n.destroy()
+	}
 }
 
 var (
@@ -346,6 +436,7 @@ func (n *c13Node) apply(cmds []c13Cmd, firstIndex uint64) (res [][]byte, err err
 	}
 	defer func() {
 		if p := recover(); p != nil {
+			n.poisoned = true
 			res, err = nil, &c13Panic{msg: fmt.Sprintf("panic: %v", p)}
 		}
 	}()
@@ -357,16 +448,26 @@ func (n *c13Node) snapshot() ([]byte, error) {
 	return s.Data, err
 }
 
+// restorable returns the state machine's own snapshot (what multiraft ships to a lagging replica).
+func (n *c13Node) restorable() []byte {
+	s, err := n.snapshot()
+	if err != nil {
+		panic(fmt.Sprintf("c13 harness: Snapshot failed: %v", err))
+	}
+	return s
+}
+
 func (n *c13Node) applied() (uint64, error) {
 	return n.sm.(multiraft.DurableAppliedStateMachine).DurableAppliedIndex(c13Ctx)
 }
 
-// state returns (snapshot bytes, durable applied index); infrastructure errors panic and
-// are reported by the caller's recover as harness errors.
+// state returns (meta snapshot bytes of the owned hash slots and of the foreign one, durable applied
+// index); infrastructure errors panic and are reported by the caller's recover as harness errors.
 func (n *c13Node) state() ([]byte, uint64) {
-	s, err := n.snapshot()
+	exp, err := n.db.ExportHashSlotSnapshot(c13Ctx, []uint16{c13HS, c13HS2, c13Foreign})
+	s := exp.Data
 	if err != nil {
-		panic(fmt.Sprintf("c13 harness: Snapshot failed: %v", err))
+		panic(fmt.Sprintf("c13 harness: ExportHashSlotSnapshot failed: %v", err))
 	}
 	a, err := n.applied()
 	if err != nil {
@@ -412,7 +513,8 @@ type c13Trace struct {
 	res     [][]byte // result of command i when applied alone (nil for the refused one)
 	errAt   int      // index of the refused command (always the last one), -1 if none
 	errCls  string
-	snaps   [][]byte // snaps[i] = snapshot bytes before command i; snaps[len] = final
+	snaps   [][]byte // snaps[i] = meta snapshot bytes (hash slots 3,4,9) before command i; snaps[len] = final
+	smSnaps [][]byte // state machine Snapshot() at the same points (what a restore starts from)
 	applied []uint64 // durable applied index, same indexing
 }
 
@@ -472,19 +574,17 @@ type c13Inst struct {
 }
 
 func (s *c13Sys) newInst() mc.Instance {
-	n, err := c13Open(c13FreshDir())
-	if err != nil {
-		panic(fmt.Sprintf("c13 harness: cannot open reference DB: %v", err))
-	}
+	n := c13Acquire()
 	in := &c13Inst{sys: s, node: n}
 	snap, a := n.state()
 	in.tr.errAt = -1
 	in.tr.snaps = [][]byte{snap}
+	in.tr.smSnaps = [][]byte{n.restorable()}
 	in.tr.applied = []uint64{a}
 	return in
 }
 
-func (in *c13Inst) Close() { in.node.destroy() }
+func (in *c13Inst) Close() { in.node.release() }
 
 func (in *c13Inst) Canon() string { return "" } // a log is not summarised by its final state: batches span the whole log
 
@@ -517,11 +617,13 @@ func (in *c13Inst) Apply(evl string, _ *mc.Env) (string, error) {
 		t.errAt, t.errCls = i, "PANIC"
 		t.res = append(t.res, nil)
 		t.snaps = append(t.snaps, prevSnap)
+		t.smSnaps = append(t.smSnaps, t.smSnaps[i])
 		t.applied = append(t.applied, prevApplied)
 		return "PANIC", mc.Violatef("C13:panic-in-apply:"+c.kind(), "ApplyBatch([%s]) panicked: %s", c.label, p.msg)
 	}
 	snap, a := in.node.state()
 	t.snaps = append(t.snaps, snap)
+	t.smSnaps = append(t.smSnaps, in.node.restorable())
 	t.applied = append(t.applied, a)
 	if err != nil {
 		t.errAt, t.errCls = i, c13ErrClass(err)
@@ -627,11 +729,8 @@ func c13PartitionString(t *c13Trace, mask int) string {
 
 func (s *c13Sys) runPartition(t *c13Trace, mask int) error {
 	s.partitionRuns.Add(1)
-	node, err := c13Open(c13FreshDir())
-	if err != nil {
-		panic(fmt.Sprintf("c13 harness: open: %v", err))
-	}
-	defer node.destroy()
+	node := c13Acquire()
+	defer node.release()
 	n := len(t.cmds)
 	kind := t.lastKind()
 	where := "partition " + c13PartitionString(t, mask)
@@ -734,11 +833,8 @@ func c13Continue(node *c13Node, t *c13Trace, from, floor int, what, where string
 
 func (s *c13Sys) runRestart(t *c13Trace, k int) error {
 	s.restartRuns.Add(1)
-	node, err := c13Open(c13FreshDir())
-	if err != nil {
-		panic(fmt.Sprintf("c13 harness: open: %v", err))
-	}
-	defer node.destroy()
+	node := c13Acquire()
+	defer node.release()
 	kind := t.lastKind()
 	where := fmt.Sprintf("restart after %d of [%s]", k, strings.Join(t.labels(), " | "))
 	for i := 0; i < k; i++ {
@@ -766,14 +862,11 @@ func (s *c13Sys) runRestart(t *c13Trace, k int) error {
 
 func (s *c13Sys) runSnapshot(t *c13Trace, k int) error {
 	s.snapshotRuns.Add(1)
-	node, err := c13Open(c13FreshDir())
-	if err != nil {
-		panic(fmt.Sprintf("c13 harness: open: %v", err))
-	}
-	defer node.destroy()
+	node := c13Acquire()
+	defer node.release()
 	kind := t.lastKind()
 	where := fmt.Sprintf("snapshot at %d of [%s]", k, strings.Join(t.labels(), " | "))
-	if err := node.sm.Restore(c13Ctx, multiraft.Snapshot{Index: uint64(k), Term: 1, Data: append([]byte(nil), t.snaps[k]...)}); err != nil {
+	if err := node.sm.Restore(c13Ctx, multiraft.Snapshot{Index: uint64(k), Term: 1, Data: append([]byte(nil), t.smSnaps[k]...)}); err != nil {
 		return mc.Violatef("C13:snapshot-restore-fails:"+kind, "%s: Restore failed: %v", where, err)
 	}
 	snap, a := node.state()
@@ -847,6 +940,7 @@ func c13RunLogs(r *ev.R, name, menuSize string, depth int) (*c13Sys, mc.Result) 
 type c13Garbage struct {
 	node     *c13Node
 	seedSnap []byte
+	seedRestore []byte // state machine snapshot of the seed state
 	cur      []byte // snapshot the node currently holds
 	curIdx   uint64 // durable applied index the node currently holds
 	idx      uint64
@@ -866,10 +960,7 @@ func c13SeedCmds() []c13Cmd {
 }
 
 func c13NewGarbage() *c13Garbage {
-	n, err := c13Open(c13FreshDir())
-	if err != nil {
-		panic(fmt.Sprintf("c13 harness: open: %v", err))
-	}
+	n := c13Acquire()
 	g := &c13Garbage{node: n}
 	for _, c := range c13SeedCmds() {
 		g.idx++
@@ -878,6 +969,7 @@ func c13NewGarbage() *c13Garbage {
 		}
 	}
 	g.seedSnap, g.curIdx = n.state()
+	g.seedRestore = n.restorable()
 	g.cur = g.seedSnap
 	return g
 }
@@ -891,7 +983,7 @@ func (g *c13Garbage) feed(hs uint16, data []byte, what string) (string, *ev.Viol
 	var p *c13Panic
 	if errors.As(err, &p) {
 		// the node may hold locks: replace it
-		g.node.destroy()
+		g.node.release()
 		*g = *c13NewGarbage()
 		return "PANIC", &ev.Violation{Fingerprint: "C13:panic-on-garbage-payload:" + strings.SplitN(what, ":", 2)[0], System: "garbage",
 			Message: fmt.Sprintf("ApplyBatch panicked on %s payload %x: %s", what, data, p.msg), Replay: replay}
@@ -913,7 +1005,7 @@ func (g *c13Garbage) feed(hs uint16, data []byte, what string) (string, *ev.Viol
 	if !bytes.Equal(snap, g.cur) {
 		// the payload was a well-formed command: put the seed state back through the real restore path
 		out = "accepted:changed"
-		if err := g.node.sm.Restore(c13Ctx, multiraft.Snapshot{Index: g.idx, Term: 1, Data: append([]byte(nil), g.seedSnap...)}); err != nil {
+		if err := g.node.sm.Restore(c13Ctx, multiraft.Snapshot{Index: g.idx, Term: 1, Data: append([]byte(nil), g.seedRestore...)}); err != nil {
 			panic(fmt.Sprintf("c13 harness: re-seeding failed: %v", err))
 		}
 		back, ba := g.node.state()
@@ -980,7 +1072,7 @@ func c13RunGarbage(r *ev.R) {
 					}
 				}()
 				gw := c13NewGarbage()
-				defer func() { gw.node.destroy() }()
+				defer func() { gw.node.release() }()
 				for ci := w; ci < len(encs); ci += workers {
 					c := encs[ci]
 					for cut := 0; cut < len(c.data); cut++ {
@@ -1033,7 +1125,7 @@ func c13RunGarbage(r *ev.R) {
 				}
 			}()
 			gw := c13NewGarbage()
-			defer func() { gw.node.destroy() }()
+			defer func() { gw.node.release() }()
 			for typ := w; typ < 256; typ += workers {
 				maxBody := 1
 				if deep[typ] {
@@ -1081,7 +1173,7 @@ func c13ReplayGarbage(r *ev.R, raw json.RawMessage) bool {
 		return true
 	}
 	g := c13NewGarbage()
-	defer func() { g.node.destroy() }()
+	defer func() { g.node.release() }()
 	out, v := g.feed(pl.HS, data, pl.What)
 	fmt.Printf("replay garbage payload %x -> %s\n", data, out)
 	if v != nil {
@@ -1100,6 +1192,7 @@ func c13Setup(t *testing.T) (*ev.R, func()) {
 		if p := recover(); p != nil {
 			r.HarnessError("harness panic: %v", p)
 		}
+		c13DrainPool()
 		if c13Base != "" {
 			_ = os.RemoveAll(c13Base)
 		}
@@ -1121,6 +1214,8 @@ func c13Guards(r *ev.R, s *c13Sys, res mc.Result) {
 
 func c13Assumptions(r *ev.R) {
 	r.Count("db_opens", c13Opens.Load())
+	r.Count("pooled_replicas_reused_after_verified_wipe", c13PoolReuse.Load())
+	r.Count("pooled_replicas_rejected_not_empty", c13PoolReject.Load())
 	r.Assume("a committed log contains a refused (malformed / not-owned) command only as its last applied entry: multiraft fail-stops the slot on an ApplyBatch error (slot.go applyCommittedEntries -> g.fail)")
 	r.Assume("after a refused batch the replica may hold the state of any log prefix that ends inside the batch (whole-batch atomicity or split-and-replay), never anything else")
 	r.Assume("the durable applied index may stay behind only for commands whose result is stale_meta (their write batch is not committed); it is compared by this rule, not for equality between partitions")
